@@ -154,7 +154,7 @@ Section Sound.
     end.
   Proof.
     induction fuelx as [|fuelx IH]; intros st s oracle S r Hh Hi Hc; cbn [exec]; auto.
-    destruct st as [| s1 s2 | x a | cs x g args | d x | c s1 s2 | c body | a | x ik j | cs d x xi ik m args | a er | cs x xe g args | cs g args]; cbn in Hh, Hi.
+    destruct st as [| s1 s2 | x a | cs x g args | d x | c s1 s2 | c body | a | x ik j | x y ik ik2 | cs d x xi ik m args | a er | cs x xe g args | cs g args]; cbn in Hh, Hi.
     - inversion Hh; subst. exact Hc.
     - destruct (hreach vars hf s1 S) as [r1|] eqn:E1; [|discriminate].
       destruct (hreach vars hf s2 (h_norm r1)) as [r2|] eqn:E2; [|discriminate]. inversion Hh; subst. cbn.
@@ -240,6 +240,14 @@ Section Sound.
       destruct (hvals_sound s a0 a Hs Hi) as [v' [Hv' Ev]]. exists v'. split; auto. rewrite Ev, Hv. reflexivity.
     - inversion Hh; subst. cbn. destruct Hc as [a0 [Ha Hs]].
       eapply (assign_covers S s a0 x (VPtr (Some (ik, j))) (VPtr None) (fun _ => [VPtr None])); eauto. cbn. auto.
+    - (* x = y between interface types: nil stays nil, a value stays a value *)
+      inversion Hh; subst. cbn. destruct Hc as [a0 [Ha Hs]].
+      destruct (hvals_sound s a0 (AVar y) Hs) as [v' [Hv' Ev]]; [intros z Hz; apply Hi; apply in_or_app; auto|].
+      cbn [eval_atom] in Ev.
+      destruct (sget s y) as [|[[k' j]|]] eqn:Ey; auto.
+      + eapply (assign_covers S s a0 x VNil v' (fun s0 => hvals s0 (AVar y))); eauto.
+      + destruct (Nat.eqb ik2 k'); auto.
+        eapply (assign_covers S s a0 x (VPtr (Some (ik, j))) v' (fun s0 => hvals s0 (AVar y))); eauto.
     - inversion Hh; subst. cbn. destruct Hc as [a0 [Ha Hs]].
       destruct (sget s xi) as [|[[k' j]|]] eqn:Exi; auto.
       destruct (if Nat.eqb ik k' then nth_error (nth j (p_impls prog) []) m else None) as [f|]; auto.
